@@ -188,6 +188,28 @@ func runC07(c *Ctx) {
 		r.Add(core.Obligation{Rule: "loop-var", Key: "loop-var the rule fires on its built-in positive example", Func: "-", Status: stSelf,
 			Basis: "a five-line example (append(out, &v) in a range loop, language version 1.18) is built and must be reported", Detail: "the loop-variable rule no longer matches its own positive example: its silence on the repository means nothing"})
 	}
+	// an encoder that walks a string byte by byte does not do it with `for i := range s`: that steps rune by rune, and
+	// s[i] then skips the continuation bytes of every multi-byte character (a NetBIOS name with a non-ASCII letter goes
+	// out with fewer than 32 half-octets under a length octet that says 32)
+	r.Rule("byte-loop", "no loop ranges over a string and indexes it with the range key", 1)
+	{
+		kgb := core.NewKeyGen()
+		n := 0
+		for _, fn := range c.P.LibFunctions() {
+			for _, ins := range rangeStringByteIndex(fn) {
+				n++
+				r.Add(core.Obligation{Rule: "byte-loop", Key: strings.TrimSuffix(kgb.Key("byte-loop "+core.FuncName(fn)), "#0"), Func: core.FuncName(fn), Pos: c.P.Pos(core.PosOf(ins)), Status: core.Violated,
+					Detail: core.FuncName(fn) + " ranges over a string and reads it at the range key: the loop visits one index per character, not per byte, so the bytes after the first of every multi-byte character are never encoded and the output is shorter than its length field says"})
+			}
+		}
+		r.Extra["string_range_byte_index_sites"] = n
+		stSelf := core.Proved
+		if !byteLoopSelfTest() {
+			stSelf = core.Violated
+		}
+		r.Add(core.Obligation{Rule: "byte-loop", Key: "byte-loop the rule fires on its built-in positive example", Func: "-", Status: stSelf,
+			Basis: "a four-line example (for i := range s { out = append(out, s[i]) }) is built and must be reported", Detail: "the byte-loop rule no longer matches its own positive example: its silence on the repository means nothing"})
+	}
 	// a NetBIOS name goes out as exactly 16 characters (32 half-octets under a length octet that says 32): padding to 16
 	// is the last thing that changes the length of the name - nothing shortens it afterwards
 	r.Rule("nbns-name", "the NBNS name is padded to 16 characters after any truncation, not before", 1)
@@ -588,6 +610,7 @@ func runC07(c *Ctx) {
 	checkARPAddrComplete(c, libFns)
 	checkDHCPInPlace(c)
 	checkDHCPNak(c)
+	checkMulticastPair(c)
 	checkOptionsSent(c)
 
 	// ---- checksum order ----
@@ -1351,6 +1374,72 @@ func wholeStored(al *ssa.Alloc) bool {
 		}
 	}
 	return false
+}
+
+// checkMulticastPair: the library's multicast destinations come as ready-made pairs of group address and 33:33 MAC
+// (IPv6SolicitedNode(ip), IP6AllNodesAddr, IP6AllRoutersAddr). A pair that is copied into a local keeps its MAC: no
+// store into the MAC field of that local (a probe "delivered to the station only" would carry a multicast IPv6
+// destination under a unicast Ethernet destination).
+func checkMulticastPair(c *Ctx) {
+	c.R.Rule("multicast-pair", "a multicast destination pair (group address, 33:33 MAC) is not given another MAC", 1)
+	isPair := func(v ssa.Value) (string, bool) {
+		switch t := v.(type) {
+		case *ssa.Call:
+			if cal := t.Call.StaticCallee(); cal != nil && cal.Name() == "IPv6SolicitedNode" {
+				return "IPv6SolicitedNode()", true
+			}
+		case *ssa.UnOp:
+			if g, ok := t.X.(*ssa.Global); ok && t.Op == token.MUL {
+				switch g.Name() {
+				case "IP6AllNodesAddr", "IP6AllRoutersAddr":
+					return g.Name(), true
+				}
+			}
+		}
+		return "", false
+	}
+	n := 0
+	kg := core.NewKeyGen()
+	for _, fn := range c.P.ModuleFunctions() {
+		core.EachInstr(fn, func(i ssa.Instruction) {
+			v, ok := i.(ssa.Value)
+			if !ok {
+				return
+			}
+			name, ok := isPair(v)
+			if !ok {
+				return
+			}
+			n++
+			st, det := core.Proved, ""
+			for _, ref := range *v.Referrers() {
+				sto, isS := ref.(*ssa.Store)
+				if !isS || sto.Val != v {
+					continue
+				}
+				al, isAl := sto.Addr.(*ssa.Alloc)
+				if !isAl {
+					continue
+				}
+				core.EachInstr(fn, func(j ssa.Instruction) {
+					s2, ok := j.(*ssa.Store)
+					if !ok {
+						return
+					}
+					if fa, ok := s2.Addr.(*ssa.FieldAddr); ok && fa.X == ssa.Value(al) && fieldOwner(fa) == "packet.Addr.MAC" {
+						st = core.Violated
+						det = core.FuncName(fn) + " copies " + name + " into " + norm(al) + " and then stores " + norm(s2.Val) + " into its MAC at " + c.P.Pos(core.PosOf(j)) + ": the frame sent to it has a multicast IPv6 destination under that Ethernet destination instead of the matching 33:33 MAC"
+					}
+				})
+			}
+			key := strings.TrimSuffix(kg.Key("multicast-pair "+core.FuncName(fn)+" "+name), "#0")
+			c.R.Add(core.Obligation{Rule: "multicast-pair", Key: key, Func: core.FuncName(fn), Pos: c.P.Pos(core.PosOf(i)), Status: st,
+				Basis: "used whole, or copied into a local whose MAC field is not written", Detail: det})
+		})
+	}
+	if n == 0 {
+		c.R.Add(core.Obligation{Rule: "multicast-pair", Key: "multicast-pair sites", Status: core.Violated, Detail: "no use of IPv6SolicitedNode / IP6AllNodesAddr / IP6AllRoutersAddr found"})
+	}
 }
 
 // checkDHCPNak: a DHCPNAK is encoded over the request, whose ciaddr and yiaddr bytes are still in the buffer.
